@@ -40,6 +40,10 @@ def run(repo):
                            ("TYPE_ID_EX", fmt, fmt_rel), ("OFFSET_EXTENDED_TYPE_ID", fmt, fmt_rel),
                            ("MAX_STORED_SNAPSHOT", sto, sto_rel), ("MAX_SNAPSHOT_PACKSIZE", gs, gs_rel)):
         s += "/-- `%s` of %s -/\ndef %s : Nat := %d\n\n" % (name, rel, name, exlib.const_expr(src, name, rel))
+    # named constants the modelled functions may mention (their own files' and the shared ones)
+    known = {}
+    for src_, rel_ in ((gs, gs_rel), (fmt, fmt_rel), (snap, snap_rel)):
+        known = exlib.file_consts(src_, rel_, env=known)
     for fn, src, rel, which in (("key_to_raw_type_id", fmt, fmt_rel, 0), ("key_to_id", fmt, fmt_rel, 0),
                                 ("key", fmt, fmt_rel, 0), ("uuid_to_item_data", fmt, fmt_rel, 0),
                                 ("item_data_to_uuid", fmt, fmt_rel, 0), ("encode_obj", fmt, fmt_rel, 0),
@@ -47,8 +51,8 @@ def run(repo):
                                 ("read_from_ints", snap, snap_rel, 0), ("recycle", snap, snap_rel, 1),
                                 ("add_item", snap, snap_rel, 2), ("raw_type_id", snap, snap_rel, 0)):
         body = exlib.fn_body(src, fn, which, rel)
-        s += "/-- integer literals of `fn %s` (#%d) in %s, in source order -/\n" % (fn, which, rel)
-        s += "def lits_%s : List Nat := %s\n\n" % (fn, exlib.lean_nat_list(exlib.int_literals(body)))
+        s += "/-- significant numbers of `fn %s` (#%d) in %s: integer literals and the values of the named\nconstants it uses, sorted set without 0 and 1 -/\n" % (fn, which, rel)
+        s += "def lits_%s : List Nat := %s\n\n" % (fn, exlib.lean_nat_list(exlib.significant_set(body, known)))
     for name, rel in (("ddnet", "gamenet/ddnet/src/snap_obj.rs"), ("tw06", "gamenet/teeworlds-0.6/src/snap_obj.rs"),
                       ("tw07", "gamenet/teeworlds-0.7/src/snap_obj.rs"), ("tw05", "gamenet/teeworlds-0.5/src/snap_obj.rs")):
         rows = obj_size_table(repo, rel)
